@@ -453,7 +453,13 @@ impl Authorizer {
                     return Err(error::Token::RunLimit(error::RunLimit::Timeout));
                 }
 
-                if res {
+                if check.kind == CheckKind::Reject {
+                    // a `reject if` check passes only if none of its alternatives matches
+                    successful = res;
+                    if !res {
+                        break;
+                    }
+                } else if res {
                     successful = true;
                     break;
                 }
@@ -517,7 +523,13 @@ impl Authorizer {
                         return Err(error::Token::RunLimit(error::RunLimit::Timeout));
                     }
 
-                    if res {
+                    if check.kind == CheckKind::Reject {
+                        // a `reject if` check passes only if none of its alternatives matches
+                        successful = res;
+                        if !res {
+                            break;
+                        }
+                    } else if res {
                         successful = true;
                         break;
                     }
@@ -620,7 +632,13 @@ impl Authorizer {
                             return Err(error::Token::RunLimit(error::RunLimit::Timeout));
                         }
 
-                        if res {
+                        if check.kind == CheckKind::Reject {
+                            // a `reject if` check passes only if none of its alternatives matches
+                            successful = res;
+                            if !res {
+                                break;
+                            }
+                        } else if res {
                             successful = true;
                             break;
                         }
